@@ -88,7 +88,7 @@ def analyze(prop, cases, results):
     viol, disag, mfails = [], [], []
     for c in cases:
         r = results[str(c.cid)]
-        impl, model = dev.parse_mon(r.get("mon", ""))
+        impl, model, odiff = dev.parse_mon(r.get("mon", ""))
         if r.get("crash"):
             disag.append((c, {"kind": "runner-crash", "log": r.get("golog", "")[-1500:]}))
             continue
@@ -99,11 +99,11 @@ def analyze(prop, cases, results):
         if pi:
             viol.append((c, pi))
             continue
-        a = dev.project(prop, c, r["go"])
-        b = dev.project(prop, c, r["model"])
-        if a != b:
-            k = next(i for i in range(max(len(a), len(b))) if (a[i] if i < len(a) else None) != (b[i] if i < len(b) else None))
-            disag.append((c, {"kind": "model-vs-implementation", "op_index": k,
+        if prop in odiff:
+            # first op line that differs at all, for the report
+            k = next((i for i in range(max(len(r["go"]), len(r["model"])))
+                      if (r["go"][i] if i < len(r["go"]) else None) != (r["model"][i] if i < len(r["model"]) else None)), 0)
+            disag.append((c, {"kind": "model-vs-implementation", "observation_index": odiff[prop], "op_index": k,
                               "implementation": r["go"][k] if k < len(r["go"]) else None,
                               "model": r["model"][k] if k < len(r["model"]) else None}))
     return viol, disag, mfails
@@ -151,11 +151,11 @@ def run(prop, tier, seed, verdict, profile=None, n=None):
     for c, fails in viol[:3]:
         f0 = fails[0]
         def still(cc, rr, clause=f0[2]):
-            impl, _ = dev.parse_mon(rr.get("mon", ""))
+            impl, _, _ = dev.parse_mon(rr.get("mon", ""))
             return any(f[0] == prop and f[2] == clause for f in impl)
         small = shrink(c, binary, workdir, still)
         rs = dev.execute([small], binary, workdir, tag="final", jobs=1)[str(small.cid)]
-        impl, _ = dev.parse_mon(rs.get("mon", ""))
+        impl, _, _ = dev.parse_mon(rs.get("mon", ""))
         fl = [f for f in impl if f[0] == prop] or fails
         sig = {"clause": fl[0][2], "events": small.events, "cfg": small.cfg}
         verdict.violation(sig, {"case": small.to_json(), "failing_clause": fl[0][2], "step": fl[0][1],
@@ -166,7 +166,7 @@ def run(prop, tier, seed, verdict, profile=None, n=None):
             def still2(cc, rr):
                 if rr.get("crash"):
                     return True
-                return dev.project(prop, cc, rr["go"]) != dev.project(prop, cc, rr["model"])
+                return prop in dev.parse_mon(rr.get("mon", ""))[2]
             small = shrink(c, binary, workdir, still2)
             rs = dev.execute([small], binary, workdir, tag="final", jobs=1)[str(small.cid)]
             verdict.violation({"clause": "correspondence", "events": small.events, "cfg": small.cfg},
